@@ -37,7 +37,7 @@ def _apply(lines, ids, kind, serial):
         lines.insert(len(lines) - 1, "")
         ids.insert(len(ids) - 1, f"blank{serial}")
     elif kind == "change_first":
-        lines[0] = "Mark: CHANGED"
+        lines[0] = f"Mark: CHANGED{serial}"
     return lines, ids
 
 
